@@ -1461,6 +1461,73 @@ def search_const_history(ctx, rng, counts, deep):
             examine_history(ctx, spec, hist, [rng.randrange(2 ** 31) for _ in hist], rng, counts, deep, with_laws=False)
 
 
+def examine_const_final(ctx, spec, history, seeds, counts):
+    """history ending in a CONSTANT fit (non-constant -> constant c, c inside or outside the earlier data range):
+    the model restored from `to_dict()` (directly and through JSON) must be the live model: cdf / pdf / ppf / sample
+    at the constant and around it, bitwise."""
+    import json
+    m = build(spec)
+    for k, (data, seed) in enumerate(zip(history, seeds)):
+        if seeded_fit(m, data, seed) is not None:
+            ctx.count(f'const-final.{spec["cls"]}.fit-raises')
+            return
+        if k < len(history) - 1:
+            exercise(m, data)
+    inst = inst_of(m)
+    icls = type(inst).__name__
+    c = float(np.asarray(history[-1], dtype=float)[0])
+    ctx.count(f'const-final.{icls}')
+    rng = vc.rng_for(seeds[-1], 'const-final')
+    prev = np.concatenate([np.asarray(h, dtype=float) for h in history[:-1]])
+    x = np.array(sorted(set(const_points(rng, c) + [float(prev.min()), float(prev.max()), float(prev.mean())])))
+    x = x[np.isfinite(x)]
+    qs = np.array([0.0, 0.1, 0.5, 0.9, 1.0])
+    u = U()
+    for name, make in (('cls.from_dict(to_dict)', lambda: type(inst).from_dict(m.to_dict())),
+                       ('from_dict(json.loads(json.dumps(to_dict)))',
+                        lambda: u.Univariate.from_dict(json.loads(json.dumps(vc.jsonable(m.to_dict())))))):
+        try:
+            with np.errstate(all='ignore'):
+                r = make()
+        except Exception as e:  # noqa
+            r = None
+            problem = {'state': name, 'raises': f'{type(e).__name__}: {str(e)[:80]}'}
+        if r is not None:
+            problem = None
+            for q, arg in (('cdf', x), ('pdf', x), ('ppf', qs), ('sample', 4)):
+                a, b = call(getattr(m, LONG[q]), arg), call(getattr(r, LONG[q]), arg)
+                counts['checks'] += 1
+                if not (a[0] == b[0] and (bit_equal(a[1], b[1]) if a[0] == 'ok' else True)):
+                    problem = {'state': name, 'query': LONG[q], 'constant': c, 'live_model': str(a[1])[:120],
+                               'restored_model': str(b[1])[:120], 'restored _constant_value': repr(inst_of(r)._constant_value)}
+                    break
+        if problem is None:
+            continue
+        counts['failures'] += 1
+        key = f'{icls}.from_dict:laws-differ-from-fitted-model'
+        if sum(1 for f in ctx.failing if f['class'] == key) < 3:
+            ctx.fail_input(f'{icls}.from_dict', {'spec': spec, 'history': [[float(v) for v in h] for h in history],
+                                                 'seeds': list(seeds), 'law': 'const-final', 'to_dict': vc.jsonable(m.to_dict())},
+                           problem, 'the model restored from to_dict() answers cdf / pdf / ppf / sample exactly like the live '
+                           'model (the point mass at the LAST constant)', key)
+        return
+
+
+def search_const_final(ctx, rng, counts, deep):
+    for cls in ALL + ('Univariate',):
+        for where in (('outside-above', 'outside-below', 'inside') if (deep or cls == 'TruncatedGaussian')
+                      else (rng.choice(['outside-above', 'outside-below']), 'inside')):
+            first = gen_data(rng, n=rng.choice([8, 20]))[1]
+            lo, hi, sd = float(first.min()), float(first.max()), float(first.std())
+            c = {'outside-above': hi + sd * rng.uniform(0.5, 5), 'outside-below': lo - sd * rng.uniform(0.5, 5),
+                 'inside': float(rng.choice(list(first)))}[where]
+            hist = [first, np.full(rng.choice([5, 12]), c)]
+            if rng.random() < 0.3:
+                hist.insert(0, gen_data(rng, n=8)[1])
+            spec = {'cls': cls, 'opts': {'candidates': rng.sample(list(SCIPY), 2)} if cls == 'Univariate' else {}}
+            examine_const_final(ctx, spec, hist, [rng.randrange(2 ** 31) for _ in hist], counts)
+
+
 # ------------------------------------------------------------------------ large sparse samples
 def _primes(lo, hi):
     sieve = np.ones(hi + 1, dtype=bool)
@@ -2409,6 +2476,7 @@ def search(ctx, deep):
     search_history(ctx, ctx.rng('search-history'), counts, deep)
     search_const_history(ctx, ctx.rng('search-const-history'), counts, deep)
     search_sparse(ctx, ctx.rng('search-sparse'), counts, deep)
+    search_const_final(ctx, ctx.rng('search-const-final'), counts, deep)
     search_batch(ctx, ctx.rng('search-batch'), counts, deep)
     for rep in range(reps):
         for cls in ALL + ('Univariate',):
@@ -2459,6 +2527,9 @@ def replay(ctx, payload):
         dts = inp.get('dtypes') or ['float64'] * len(inp['history'])
         examine_history(ctx, inp['spec'], [np.array(d, dtype=float).astype(t) for d, t in zip(inp['history'], dts)], inp['seeds'],
                         vc.rng_for(0, 'replay'), counts, True)
+        return any(f['class'] == payload.get('class') for f in ctx.failing[before:])
+    if inp.get('law') == 'const-final':
+        examine_const_final(ctx, inp['spec'], [np.array(d, dtype=float) for d in inp['history']], inp['seeds'], counts)
         return any(f['class'] == payload.get('class') for f in ctx.failing[before:])
     if inp.get('law') == 'sparse':
         examine_sparse(ctx, inp['spec'], inp['n'], inp['layout'], inp['seed'], counts)
